@@ -684,9 +684,34 @@ def gen_sqpyr(tp):
             "mirror": tp.chance(90), "shape": "square-pyramid-like"}
 
 
+def gen_seesaw(tp):
+    """four-coordinate, non-planar centre that lies OUTSIDE the tetrahedron
+    of its ligands (see-saw / strongly pyramidalised): all ligands in one
+    half space"""
+    zc = tp.pick([52, 16, 34, 51, 6])
+    ligs = tp.shuffle(LIGANDS)[:4]
+    a = math.radians((150 + tp.below(28)) / 2)       # axial half angle
+    e = math.radians((85 + tp.below(40)) / 2)        # equatorial half angle
+    tilt = 0.03 + tp.below(30) / 100.0               # axial z offset >= 0
+    dirs = [(math.sin(a), 0, math.cos(a) + tilt),
+            (-math.sin(a), 0, math.cos(a) + tilt),
+            (0, math.sin(e), math.cos(e)), (0, -math.sin(e), math.cos(e))]
+    atoms = [(zc, (0.0, 0.0, 0.0))]
+    for z, v in zip(ligs, dirs):
+        ln = (G.RADII[zc] + G.RADII[z]) * (0.95 + tp.below(11) / 100.0)
+        atoms.append((z, G.scale(G.unit(v), ln)))
+    order = tp.shuffle(range(5))
+    return {"kind": "raw", "elements": [atoms[i][0] for i in order],
+            "coords": [list(atoms[i][1]) for i in order],
+            "perm": tp.shuffle(range(5)), "motions": [_motion(tp)],
+            "mirror": tp.chance(90), "shape": "see-saw"}
+
+
 def gen(data: bytes):
     tp = S.Tape(data)
     k = tp.weighted([3, 2, 6, 1])
+    if k == 3 and tp.chance(128):
+        return gen_seesaw(tp)
     if k == 0:
         return gen_file(tp)
     if k == 1:
